@@ -47,7 +47,8 @@ SumOver(S, f) == IF S = {} THEN 0 ELSE LET e == CHOOSE e \in S : TRUE IN f[e] + 
 RECURSIVE ProdSgn(_, _)
 ProdSgn(S, f) == IF S = {} THEN 1 ELSE LET e == CHOOSE e \in S : TRUE IN Sgn(f[e]) * ProdSgn(S \ {e}, f)
 Scale(v, an, ad) == IF v >= 0 THEN (v * an) \div ad ELSE -(((-v) * an) \div ad)
-Offs(v, beta) == v - Sgn(v) * beta
+\* the offset shrinks a magnitude towards zero and stops there: a message weaker than the offset carries nothing (it never changes sign)
+Offs(v, beta) == IF Abs(v) <= beta THEN 0 ELSE v - Sgn(v) * beta
 CheckUpdate(E, vc, an, ad, beta) ==
     [e \in E |-> LET others == { f \in E : f[1] = e[1] /\ f # e } IN
                  IF others = {} THEN 0
@@ -58,7 +59,8 @@ RECURSIVE MinSumIter(_, _, _, _, _, _, _)
 MinSumIter(E, cv, y, t, an, ad, beta) ==
     IF t = 0 THEN cv ELSE MinSumIter(E, CheckUpdate(E, VarUpdate(E, cv, y), an, ad, beta), y, t - 1, an, ad, beta)
 MinSumSoft(H, y, iters, an, ad, beta) == LET E == Edges(H) IN Marginal(E, MinSumIter(E, [e \in E |-> 0], y, iters, an, ad, beta), y)
-\* the sub-offset corner (alpha |min| <= beta at some check node in some iteration) is not defined by the property: detect it
+\* the sub-offset corner (alpha |min| <= beta at some check node in some iteration): reported for information - it used to be exempted, which hid a
+\* sign flip in the implementation (DESIGN.md section 10); the rule above defines it and the clause now applies there too
 RECURSIVE OffsetSafe(_, _, _, _, _, _, _)
 OffsetSafe(E, cv, y, t, an, ad, beta) ==
     IF t = 0 THEN TRUE
